@@ -6,6 +6,7 @@ import math
 
 import numpy as np
 
+from rv.core import scribble
 from rv.gen import geoms
 
 ANCHORS = ("geometry/operations.py", "arrays/dimensions.py")
@@ -202,6 +203,18 @@ def judge(ctx, tspec, gspecs, values, fill, dtype, all_touched_check=True):
             ctx.mon("rasterize.repeat")
             if not _eqnan(again.transpose("time", "frequency").data.astype(float), got).all():
                 ctx.violate("repeat_call_differs", "repeat_call_differs", observed="second call on the same objects differs", spec=spec)
+            # the caller owns the returned raster (and may hand the inputs over as tuples): it paints over it in place,
+            # then rasterises fresh, equal geometries on a fresh, equal template
+            if scribble.scribble(again):
+                kw2 = dict(kw, values=tuple(values) if isinstance(values, list) else values)
+                fresh = O.rasterize(tuple(geoms.build(s_) for s_ in gspecs), _template(tspec), **kw2)
+                if names:
+                    fresh = fresh.rename({names[0]: "time", names[1]: "frequency"})
+                ctx.mon("rasterize.repeat_after_result_edit")
+                if not _eqnan(fresh.transpose("time", "frequency").data.astype(float), got).all():
+                    ctx.violate("repeat_call_differs", "repeat_call_differs:after_caller_edited_earlier_result", observed="raster differs from the first one", spec=spec)
+                if not (np.array_equal(np.asarray(arr.coords[names[0] if names else "time"].data), t) and np.array_equal(np.asarray(arr.coords[names[1] if names else "frequency"].data), f)):
+                    ctx.note("editing_the_result_changed_the_template_axes")
             k = ctx.rng.randrange(len(gs))
             if gspecs[k]["type"] in geoms.AREAL:
                 geoms.edit_in_place(gs[k], ctx.rng)
